@@ -41,13 +41,13 @@ T = {
     "C12": ("exhaustive 8-bit sweep of the integer Lerp impls against an exact rational rounding model; Sym identity monitors for generic lerp; f32/f64 sampling for slerp",
             "All 65 536 (from,to) pairs of i8 and u8 x factor grid x fast/precise x value/ref vs exact round-half-away; wider ints stratified (each formula judged on its own exactness domain, mantissa-wide and equal endpoints included); generic lerp identities; nlerp/slerp unit, shorter arc, constant speed; Transition accessors equal the matching Lerp call.",
             "integer oracle judges only endpoints exactly representable in the factor type and results in range, as the property states"),
-    "C13": ("exhaustive grid enumeration against point-set semantics; exact-rational / dyadic-float / unsigned reference-model monitors; distance_to_point over the whole float range (subnormal offsets included)",
+    "C13": ("exhaustive grid enumeration against point-set semantics; exact-rational / dyadic-float / unsigned reference-model monitors; distance_to_point over the whole float range (subnormal offsets and exact ties between axes included, absolute tolerance derived from the smallest subnormal)",
             "All boxes with corners on a small grid (valid and invalid) x all second boxes x all grid/half-grid points, 2-D exhaustive and 3-D exhaustive in thorough: every Aabr/Aabb/Rect/Rect3 method is compared pointwise with the set it denotes; all boxes with signed / odd coordinates for centre, size and the rectangle == box equivalence.",
             "methods that assert validity are called only inside their documented domain"),
     "C14": ("Sym/GF(p) polynomial identity monitors with forward-mode derivatives over the logged evaluate",
             "evaluate == Bernstein polynomial in free control points and free t; evaluate_derivative == d/dt of the logged evaluate; split re-parametrises; elevation, matrix form, reversal, flips, matrix*curve commute; an exact value tier with coincident control points at t = 0, 1, inside and outside; quarter circle radius on floats.",
             "identities are decided at random points of GF(2^61-1)"),
-    "C15": ("exact-rational monitor on curves constructed per branch of the root finder; f64 grid sampling (nearly parabolic cubics included); search/length monotonicity monitors (length in f64 and, with the summation bound, in f32); bounded-progress monitor: a budgeted f64 element type counts vek's scalar operations and unwinds a search that exceeds 2e7 of them",
+    "C15": ("exact-rational monitor on curves constructed per branch of the root finder; f64 grid sampling (nearly parabolic cubics and generic curves in a 2^-20..2^-28 unit, judged relative to their own size, included); search/length monotonicity monitors (length in f64 and, with the summation bound, in f32); bounded-progress monitor: a budgeted f64 element type counts vek's scalar operations and unwinds a search that exceeds 2e7 of them",
             "Extrema parameters in [0,1] and optimal, inflections are derivative zeros inside the interval, boxes in curve coordinates containing and touching the curve, search result no worse than coarse samples, length bounds and refinement monotonicity.",
             "curves are integrated from chosen derivatives so true extrema are known exactly"),
     "C16": ("exact-rational monitors with squared-distance, parametric-minimisation and Cramer-solve oracles; f32/f64 for pi formulas",
@@ -62,7 +62,7 @@ T = {
     "C19": ("Tag data-movement monitor against a table written from the documentation; exhaustive 256 shuffle masks; Sym identity for the embedding/multiplication commutation law",
             "Every From between vector kinds/sizes, swizzles, with_*, homogeneous constructors, unit vectors, all shuffle entry points for all masks and out-of-range indices, colour helpers for every ColorComponent type.",
             "expected tables are transcribed from vek's documentation"),
-    "C20": ("per-lane exhaustive 8-bit reference sweeps of the numeric lifts; float-class sweeps of approx lifts; observed stable-toolchain builds of 214 feature configurations, each running a fixed and a pseudo-random differential workload (about 56 000 hashed results over ~500 always-present entry points per configuration) whose per-section digests are compared between configurations",
+    "C20": ("per-lane exhaustive 8-bit reference sweeps of the numeric lifts; float-class sweeps of approx lifts (distinct operands, bit-equal copies and the same object on both sides, NaN / infinite lanes); observed stable-toolchain builds of 214 feature configurations, each running a fixed and a pseudo-random differential workload (about 56 000 hashed results over ~500 always-present entry points per configuration) whose per-section digests are compared between configurations",
             "checked/wrapping/saturating/overflowing/Euclid/Inv lifts vs the scalar op per lane (each lane position over all 65 536 operand pairs), casts fail iff one element fails, approx lifts == conjunction; every {std,libm} x single/pair/full feature set is built; a fixed workload and a seeded pseudo-random workload over the always-present API are hashed per section and compared within a base, between std and libm for the sections without transcendental functions, and per float backend for the others.",
             "the 'builds' clause is an observation of the real toolchain on the real tree, one toolchain, one target"),
 }
